@@ -35,6 +35,26 @@ claim("C01", "other",
       "dialect's (specs). Trusts rustc's HIR/MIR and the extractor.",
       "path-effect summaries + who-may-write/who-may-call census over rustc HIR/MIR", "DESIGN.md section 4, C01")
 
+claim("C02", "other",
+      "Both modes run the same renderer code on a `&mut dyn SqlWriter`; the check establishes that the writer's identity is "
+      "unobservable to rendering (callee census on every dyn SqlWriter value, no downcast), that the only inline "
+      "writer writes exactly the rendering backend's literal for the value that would have been bound, that all entry points "
+      "of the five statement types and their #[inherent] forwards reach the same renderer with the same arguments, and that "
+      "rendering cannot modify the statement (shared references, Freeze on the whole type closure, no nondeterminism source).",
+      "Does not decide that an engine returns the same rows for literals and bound parameters (engine typing). Trusts "
+      "rustc's resolution of callees and the Freeze answers of the trait solver.",
+      "callee census, sibling agreement, trait-solver Freeze over rustc HIR", "DESIGN.md section 4, C02")
+
+claim("C10", "other",
+      "MIR dominator analysis of InsertStatement::values/select_from: every write to the statement (in particular every "
+      "write that stores rows or a SELECT source) is dominated by the equal edge of the comparison between columns.len() and "
+      "the length of the very value that is stored; the mismatch edge builds the error from those two lengths, unswapped; a "
+      "crate-wide who-may-write census shows no other code touches columns/source/default_values; history closure rule "
+      "(columns() after values()) reports the one known defect.",
+      "Structural, over all paths and all call histories of the listed API (the invariant is inductive); rendering of the "
+      "rows is covered by C07/C08. The comparison must have the form len == / != len, otherwise the check fails closed.",
+      "MIR dominators + operand-origin tracing + field-write census", "DESIGN.md section 4, C10")
+
 claim("C20", "proof",
       "Every reachable non-generic ADT and alias of the crate is Send and Sync in the thread-safe configuration; each "
       "obligation is discharged by rustc's own trait solver on the real build, with a control query in the configuration "
